@@ -10,7 +10,6 @@ import (
 	"strings"
 	"time"
 
-	"github.com/gobwas/ws"
 	"github.com/gobwas/ws/wsutil"
 	"google.golang.org/genproto/googleapis/api/annotations"
 	"google.golang.org/genproto/googleapis/api/serviceconfig"
@@ -416,7 +415,7 @@ func healthz(r *mon.Run, rng *rand.Rand) {
 	hs.SetServingStatus("ws.svc", healthpb.HealthCheckResponse_SERVING)
 	ctx, cancel := context.WithTimeout(context.Background(), 15*time.Second)
 	defer cancel()
-	conn, _, _, err := ws.Dial(ctx, "ws://"+srv.Addr+"/v1/healthz?service=ws.svc")
+	conn, err := wire.WSDial(ctx, "ws://"+srv.Addr+"/v1/healthz?service=ws.svc", nil)
 	if err != nil {
 		r.Violate("healthz:websocket-binding-missing", "WebSocket /v1/healthz could not be opened: "+err.Error(), nil)
 		return
